@@ -997,7 +997,7 @@ PROPS["C10"] = dict(
 PROPS["C28"] = dict(
     corr_module="Corr.C28",
     streams={"hist": dict(runner="C28_run", in_t="C28_in", out_t="C28_out", shard=3, imports=["Model.Store", "Model.Reads", "Model.Persist"])},
-    n_quick=12, n_thorough=360,
+    n_quick=12, n_thorough=240,
     corpus_seeds=[(28001, 2)],   # log growth inside a commit (lex-batch record), plain and after a reopen: caught a seeded reordering in update_embedded_lex_snapshot (catalog filled after append_lex_batch)
     harness_timeout=3000,
     rule="histories of 6-22 ops on a real memory, three random profiles (general; blank / binary frames that break sketch-id density; instant-indexed puts with default options) and a fourth, steered profile (every fourth history, and the two corpus histories run first): the embedded log is driven adaptively (wal_stats / header_fields hooks: region size, pending bytes, checkpoint position; binary filler puts sized from the measured record overhead) until, with document records pending, the write head is a chosen 0..1200 bytes (swept in steps of 100 across histories) from the region end, so that the lex-batch record flush_tantivy appends INSIDE the commit makes the log region grow (tag log-grew-in-commit; variants: growth in the put just before the commit, two growths 64 -> 128 -> 256 KiB, growth in the commit of a handle reopened with the head near the end); the four-handle comparison runs immediately after that commit and again after the next put + commit; puts of short text / chunked text >= 2500 chars / whitespace-only / binary payloads, "
@@ -1016,7 +1016,7 @@ PROPS["C28"] = dict(
                "The vector and time-index parts are also derived on the C14 / C15 models (load after persist, doctor rebuild_time_index).",
     level_note="Property as stated is REFUTED in one class, recorded as known finding prefilter-sketch-ids-not-dense (= F-C39-1 seen from Memvid::search: the sketch track stores no frame ids, a reopened handle renumbers its entries, so the pre-filter's candidate set changes whenever some frame has no sketch entry); proved outside it. doctor{rebuild_vec_index} on a memory that has no vector index enables an empty one: vector search then answers [] instead of VecNotEnabled (stated in C28_same_answers_outside_known). "
                "Partial: Tantivy's search (BM25 ranking, tie order, the frame filter), ParsedQuery::evaluate / snippet slices, the sketch test of one entry and the vector ranking are Section variables that answer from what the handle holds - equal sets give equal answers by construction, the four-handle battery on real memories is what ties ranking and tie order to the code; "
-               "the candidate set of find_sketch_candidates is modelled for tracks of at most 500 entries (below the truncation); the legacy LexIndex fallback is not modelled (Tantivy-only memories never have its manifest; when every Tantivy hit is culled search returns LexNotEnabled, the same on all handles); Quiet (nothing pending, not dirty) is the hypothesis 'committed history'. The file image of Model/Persist.v holds the index SETS, no byte offsets: log growth (shift of everything behind the log, adjust_offsets_after_wal_growth patching the TOC's offsets, the order of catalog update and append_lex_batch inside update_embedded_lex_snapshot) is outside the model; for that class the tie is the four-handle oracle on real files, reached on every run by the steered profile and the corpus (tags log-grew-in-commit, room-at-commit:N).",
+               "the candidate set of find_sketch_candidates is modelled for tracks of at most 500 entries (below the truncation); the legacy LexIndex fallback is not modelled (Tantivy-only memories never have its manifest; when every Tantivy hit is culled search returns LexNotEnabled, the same on all handles); Quiet (nothing pending, not dirty) is the hypothesis 'committed history'. Not generated (frame-table model limit, Model/Store.v OUpdate = one insert record): update_frame WITHOUT payload on a chunked document - put_internal re-extracts the reused text and re-chunks it, one call appends a new parent plus new chunk frames (observed: next_frame_id 11 -> 15); chunked documents are updated with a new short payload instead, and chunk frames are never update / delete targets (C01's side condition). The file image of Model/Persist.v holds the index SETS, no byte offsets: log growth (shift of everything behind the log, adjust_offsets_after_wal_growth patching the TOC's offsets, the order of catalog update and append_lex_batch inside update_embedded_lex_snapshot) is outside the model; for that class the tie is the four-handle oracle on real files, reached on every run by the steered profile and the corpus (tags log-grew-in-commit, room-at-commit:N).",
     trusted_base=["engine oracles: Tantivy search_documents over the engine's documents with the optional frame filter, ParsedQuery::evaluate / snippet slices per hit, QuerySketch::score_entry per sketch entry, VecIndex::search",
                   "oracle inputs read from the implementation: auto-checkpoint timing and extra log records (cfg(memvid_verif) wal_stats hook), number of chunk frames, whether a frame's index text holds the probe word, whether apply_records gave a frame a sketch entry (Memvid::sketches())",
                   "the engine's document set is observed through search for a probe word present in every text payload (top_k 5000, sketch filter off); handles other than the live one are opened on byte copies of the committed file"],
